@@ -6,7 +6,7 @@
    (the check runs every sequential history against both variants).  [Defective] is today's algorithm.
    The "for all interleavings" theorems are about [run_sched c (sys0 progs) sched] for EVERY list of client
    programs and EVERY schedule (list of thread indices; each element = one atomic sync.Map / atomic step). *)
-From OV Require Import Common.Base C20.Model C20.Proofs C20.Proofs2.
+From OV Require Import Common.Base C20.Model C20.Proofs C20.Proofs2 C20.Proofs3.
 Open Scope Z_scope.
 
 (* ---------------------------------------------------------------- label tuples and the hash *)
@@ -349,3 +349,75 @@ Theorem C20_shown_is_snapshot_entry : forall k s t id h,
   lookup s t = Some id -> get_handle s id = Some h -> In (t, h_val h) (snapshot s) /\ shown k s t = measure k (h_val h).
 Proof. exact shown_in_snapshot. Qed.
 Print Assumptions C20_shown_is_snapshot_entry.
+
+(* ---------------------------------------------------------------- subscribers, tick and snapshots as threads *)
+(* The extended machine [xrun]: the metric clients above (each landed emission followed by the three atomic steps of
+   markDirty) interleaved with any number of threads that Subscribe, Unsubscribe, run publishTick, AppendSnapshot or drain
+   a subscription.  A schedule element is (true, i) = client i or (false, j) = auxiliary thread j. *)
+
+(* seen from the metric, any extended schedule is a schedule of the metric machine: every theorem above that is stated
+   "for all schedules" therefore holds with arbitrary concurrent subscribe / unsubscribe / tick / snapshot activity *)
+Theorem C20_x_projects : forall c mode progs aprogs xsched,
+  exists sched, metric_of (xrun c mode (xsys0 progs aprogs) xsched) = run_sched c (sys0 progs) sched.
+Proof. intros. destruct (xrun_projects c mode xsched (xsys0 progs aprogs)) as [s H]. exists s. rewrite H, metric_of_xsys0. reflexivity. Qed.
+Print Assumptions C20_x_projects.
+
+(* instance: per-series conservation and the cap with subscribers, ticks and snapshots running concurrently *)
+Theorem C20_x_per_tuple_conservation : forall c mode progs aprogs xsched,
+  c_kind c <> KGauge -> c_variant c = Repaired -> wf_progs c progs = true ->
+  let x := metric_of (xrun c mode (xsys0 progs aprogs) xsched) in
+  xclients_done (xrun c mode (xsys0 progs aprogs) xsched) = true ->
+  (forall t, (shown (c_kind c) (sh x) t + retired_of (c_kind c) (sh x) t + attributed x t) mod M64
+             = emitted_to c progs t mod M64) /\
+  (drops (sh x) + unknown (sh x) + stales (sh x)) mod M64 = attributed_all x mod M64 /\
+  (c_cap c > 0 -> Z.of_nat (length (snapshot (sh x))) <= c_cap c).
+Proof. exact x_per_tuple. Qed.
+Print Assumptions C20_x_per_tuple_conservation.
+
+(* subscribers are never blocked: with the select/default send of the code EVERY step of every auxiliary thread is
+   enabled in EVERY state (full channels, never-reading subscribers, concurrent emitters included) *)
+Theorem C20_x_aux_never_blocked : forall s ss a, xstep_aux SelectDefault s ss a <> None.
+Proof. exact aux_always_enabled. Qed.
+Print Assumptions C20_x_aux_never_blocked.
+
+(* emitters are never blocked by subscribers: a client step is always enabled (a total function), its effect on the metric
+   and on itself does not depend on the channels at all (only subscriberCount and the dirty flag are read, only the dirty
+   flag is written), and the number of own steps it still needs is bounded by the client alone.  Conversely an auxiliary
+   step cannot modify the metric state: [xstep_aux] returns no [shared]. *)
+Theorem C20_x_emitters_ignore_channels : forall c s ss1 ss2 cl,
+  ss_nsubs ss1 = ss_nsubs ss2 -> ss_dirty ss1 = ss_dirty ss2 ->
+  let '(s1, ss1', cl1) := xstep_client c s ss1 cl in
+  let '(s2, ss2', cl2) := xstep_client c s ss2 cl in
+  s1 = s2 /\ cl1 = cl2 /\ ss_dirty ss1' = ss_dirty ss2' /\
+  ss_subs ss1' = ss_subs ss1 /\ ss_nsubs ss1' = ss_nsubs ss1 /\ ss_subs ss2' = ss_subs ss2.
+Proof. exact client_ignores_channels. Qed.
+Print Assumptions C20_x_emitters_ignore_channels.
+
+Theorem C20_x_emitter_wait_free : forall c s ss cl,
+  (finished (fst cl) && match snd cl with MNone => true | _ => false end) = false ->
+  (xbudget (snd (xstep_client c s ss cl)) < xbudget cl)%nat.
+Proof. exact client_progress. Qed.
+Print Assumptions C20_x_emitter_wait_free.
+
+(* with a blocking channel send instead of select/default the tick IS blocked for good by a subscriber that never reads —
+   and even then the emitter finishes: one client (resolve, two emissions), one thread (Subscribe(1); tick; tick) *)
+Definition w5_progs : list (list op) := [[OResolve tA; OEmitH 0 EAdd 1; OEmitH 0 EAdd 1]].
+Definition w5_aux : list (list sop) := [[SSubscribe 1; STick; STick]].
+Definition w5_sched : list (bool * nat) :=
+  repeat (false, 0%nat) 2 ++ repeat (true, 0%nat) 9 ++ repeat (false, 0%nat) 7 ++ repeat (true, 0%nat) 5 ++ repeat (false, 0%nat) 10.
+Theorem C20_x_aux_never_blocked_refuted :
+  let x := xrun (cfg_of Repaired 2) BlockingSend (xsys0 w5_progs w5_aux) w5_sched in
+  xclients_done x = true /\
+  (exists a, nth_error (x_aux x) 0 = Some a /\ afinished a = false /\ xstep_aux BlockingSend (x_sh x) (x_ss x) a = None).
+Proof. vm_compute. split; [reflexivity|]. eexists; repeat split; reflexivity. Qed.
+Print Assumptions C20_x_aux_never_blocked_refuted.
+
+(* the same run with the code's select/default: the tick completes, the second update is counted as dropped,
+   the first is in the channel, the snapshot value is 2 *)
+Example C20_x_nonvacuous :
+  let x := xrun (cfg_of Repaired 2) SelectDefault (xsys0 w5_progs w5_aux) w5_sched in
+  xclients_done x = true /\ forallb afinished (x_aux x) = true /\
+  map (fun b => (sb_len b, sb_dropped b)) (ss_subs (x_ss x)) = [(1%nat, 1)] /\
+  shown KCounter (x_sh x) tA = 2 /\ ss_dirty (x_ss x) = false /\ ss_nsubs (x_ss x) = 1.
+Proof. vm_compute. repeat split; reflexivity. Qed.
+Print Assumptions C20_x_nonvacuous.
